@@ -38,6 +38,17 @@ RECURSIVE MergeWindows(_, _, _, _)
 MergeWindows(streams, W, k, n) == IF k >= n THEN <<>> ELSE WindowRuns(streams, W, k) \o MergeWindows(streams, W, k + 1, n)
 MergeMech(streams, W) == MergeWindows(streams, W, 0, (Hi(streams) + W - 1) \div W)
 
+\* ---- the merge tool: clip, adjust, threshold applied to the per-base sum, every base from 0 ------------
+ToolValueAt(streams, hasClip, clip, adjust, thr, b) ==      \* <<v>> or <<>> (absent)
+  IF AnyAt(streams, b) /\ SumAt(streams, b) # 0
+    THEN LET v == (IF hasClip THEN Min2(clip, SumAt(streams, b)) ELSE SumAt(streams, b)) + adjust IN IF v > thr THEN <<v>> ELSE <<>>
+    ELSE <<>>
+ToolOK(streams, hasClip, clip, adjust, thr, out) ==
+  /\ SortedDisjoint(out)
+  /\ \A b \in 0..Max2(Hi(streams), Hi(<<out>>)) :
+       LET exp == ToolValueAt(streams, hasClip, clip, adjust, thr, b) IN
+       IF exp = <<>> THEN ~HasAt(out, b) ELSE HasAt(out, b) /\ AtOf(out, b) = exp[1]
+
 \* ---- gap filling -------------------------------------------------------------------------
 FillOK(st, hasRange, rs, re, out) ==
   LET lo == IF hasRange THEN rs ELSE 0
